@@ -9,6 +9,7 @@ import (
 	"encoding/binary"
 	"fmt"
 	"io"
+	"reflect"
 	"sort"
 	"strconv"
 	"strings"
@@ -251,6 +252,7 @@ type fakeEnv struct {
 	scripted bool
 	doCalls  chan doCall
 	connects chan chan error
+	beforeInsert chan chan struct{} // scripted mode with HoldBefore: the flusher waits here inside OnBeforeInsert
 
 	mu       sync.Mutex
 	rng      *h.Rng
@@ -665,6 +667,10 @@ type scenario struct {
 	SvcNum   int
 	Ops      []mop
 	Final    bool // append a fair schedule and require every promise to complete
+	// HoldBefore: the flusher is also held inside the OnBeforeInsert callback, i.e. between swapBuffers and its copy of
+	// the waiting promises (op "iter" stops there, op "begin" lets it go on into client.Do)
+	HoldBefore bool `json:",omitempty"`
+	scale    int  // deadline multiplier of this run (0/1 = normal; 10 = confirmation run of a clock-based verdict)
 }
 
 type sevent struct {
@@ -685,17 +691,34 @@ type scenResult struct {
 	hung     []int    // promises not completed after the final fair schedule (size > 0)
 	hungZero []int    // same, for requests with accounted size 0 (documented quirk)
 	err      error    // harness-level failure (timeouts waiting for the service)
+	timedOut bool     // err is a deadline that passed (clock-based: to be confirmed alone with 10× the time)
+	opsSoFar []string // the ops played when the run ended
+	beginPos []int        // len(ops) at every entry of a flusher into client.Do (the insertBegin of the heap model)
+	growOf   map[int]bool // per queued request: did append(svc.results, p) reallocate (len == cap before the call)
 	skip     bool     // the tie is not decidable for this run (a panic could not be attributed to a sub-service)
 	stats    map[string]int
 }
 
-const stepTimeout = 5 * time.Second
-
+// every wait of runScenario on the implementation side (a flush iteration that has to report, Run that has to return
+// after Stop, a promise that has to be complete) is bounded by stepTimeout; a timeout ends the run with res.err and
+// res.timedOut, which runSvcChunk confirms alone with 10× the time before it reports it (c0102_wait.go)
 func runScenario(sc *scenario) (res *scenResult) {
 	c0102Setup()
-	res = &scenResult{reqs: map[int]*hReq{}, reqSub: map[int]int{}, stats: map[string]int{}}
+	stepTimeout := c0102Deadline
+	if sc.scale > 1 {
+		stepTimeout = time.Duration(sc.scale) * c0102Deadline
+	}
+	res = &scenResult{reqs: map[int]*hReq{}, reqSub: map[int]int{}, stats: map[string]int{}, growOf: map[int]bool{}}
 	env := &fakeEnv{scripted: true, doCalls: make(chan doCall), connects: make(chan chan error)}
 	ms := newService(sc.Kind, env, int64(sc.MaxQueue), sc.SvcNum, time.Hour)
+	if sc.HoldBefore {
+		env.beforeInsert = make(chan chan struct{})
+		ms.OnBeforeInsert = func() {
+			rel := make(chan struct{})
+			env.beforeInsert <- rel
+			<-rel
+		}
+	}
 	ms.Init()
 	syncSubs, asyncSubs := ms.VerifSubServices()
 	subs := append(append([]*service.InsertServiceV2{}, syncSubs...), asyncSubs...)
@@ -709,6 +732,8 @@ func runScenario(sc *scenario) (res *scenResult) {
 	var open []outstanding
 	inDo := make([]*doCall, len(subs))
 	iterDone := make([]chan bool, len(subs))
+	inBefore := make([]chan struct{}, len(subs)) // the flusher of sub i waits inside OnBeforeInsert
+	iterPanic := make([]chan any, len(subs))
 	crashed := false
 	curStep := 0
 	serial := uint64(0)
@@ -748,8 +773,8 @@ func runScenario(sc *scenario) (res *scenResult) {
 	// one attempt of Run's insertCtx branch for sub i
 	stopped := make([]bool, len(subs))
 	iterate := func(i int, connectOk bool) {
-		if inDo[i] != nil {
-			return // the Run goroutine of this sub-service is inside Do
+		if inDo[i] != nil || inBefore[i] != nil {
+			return // the Run goroutine of this sub-service is inside Do (or inside OnBeforeInsert)
 		}
 		if stopped[i] {
 			// Run has returned: no iteration can happen any more; the model must agree
@@ -780,9 +805,18 @@ func runScenario(sc *scenario) (res *scenResult) {
 				}
 			case call := <-env.doCalls:
 				ops = append(ops, fmt.Sprintf("w:%d", i))
+				res.beginPos = append(res.beginPos, len(ops))
 				c := call
 				inDo[i] = &c
 				iterDone[i] = done
+				return
+			case rel := <-env.beforeInsert:
+				// buffers swapped, the flusher is between swapBuffers and its copy of the promises
+				ops = append(ops, fmt.Sprintf("w:%d", i))
+				inBefore[i] = rel
+				iterDone[i] = done
+				iterPanic[i] = panicked
+				res.stats["held-before-insert"]++
 				return
 			case <-panicked:
 				ops = append(ops, fmt.Sprintf("w:%d", i))
@@ -801,12 +835,40 @@ func runScenario(sc *scenario) (res *scenResult) {
 				}
 				return
 			case <-time.After(stepTimeout):
-				res.err = fmt.Errorf("iteration of sub-service %d neither asked for a connection, nor called Do, nor returned", i)
+				res.err = fmt.Errorf("iteration of sub-service %d neither asked for a connection, nor called Do, nor returned within %s", i, stepTimeout)
+				res.timedOut = true
 				return
 			}
 		}
 	}
+	// begin: the flusher leaves OnBeforeInsert and goes on into client.Do (no op of the atomic model: the swap is "w")
+	begin := func(i int) {
+		if inBefore[i] == nil {
+			return
+		}
+		close(inBefore[i])
+		inBefore[i] = nil
+		select {
+		case call := <-env.doCalls:
+			c := call
+			inDo[i] = &c
+			res.beginPos = append(res.beginPos, len(ops))
+		case <-iterPanic[i]:
+			evs = append(evs, "x")
+			res.events = append(res.events, sevent{Step: curStep, Kind: "crash"})
+			crashed = true
+		case <-iterDone[i]:
+			res.err = fmt.Errorf("iteration of sub-service %d returned after OnBeforeInsert without calling Do", i)
+		case <-time.After(stepTimeout):
+			res.err = fmt.Errorf("iteration of sub-service %d did not call Do within %s after OnBeforeInsert returned", i, stepTimeout)
+			res.timedOut = true
+		}
+	}
 	doResult := func(i int, ok bool) {
+		begin(i)
+		if crashed || res.err != nil {
+			return
+		}
 		ops = append(ops, fmt.Sprintf("d:%d:%s", i, b01(ok)))
 		if inDo[i] == nil {
 			return
@@ -819,7 +881,8 @@ func runScenario(sc *scenario) (res *scenResult) {
 		select {
 		case <-iterDone[i]:
 		case <-time.After(stepTimeout):
-			res.err = fmt.Errorf("fetchLoopIteration of sub-service %d did not return after Do", i)
+			res.err = fmt.Errorf("fetchLoopIteration of sub-service %d did not return within %s after Do returned", i, stepTimeout)
+			res.timedOut = true
 			return
 		}
 		evs = append(evs, fmt.Sprintf("i:%s:%s", okStr(ok), inDo[i].blk.String()))
@@ -835,13 +898,18 @@ func runScenario(sc *scenario) (res *scenResult) {
 		r.step = curStep
 		res.reqs[r.id] = r
 		before := snapshot()
+		full := make([]bool, len(subs)) // svc.results has no room left: the append of this Request reallocates
+		for i, sub := range subs {
+			rv := reflect.ValueOf(sub).Elem().FieldByName("results")
+			full[i] = rv.IsValid() && rv.Len() == rv.Cap()
+		}
 		lo, hi := 0, nSync
 		if op.Mode == "async" {
 			lo, hi = nSync, len(subs)
 		}
 		var cands []int
 		for i := lo; i < hi; i++ {
-			if inDo[i] != nil {
+			if inDo[i] != nil || inBefore[i] != nil {
 				cands = append(cands, i)
 			}
 		}
@@ -852,14 +920,31 @@ func runScenario(sc *scenario) (res *scenResult) {
 		}
 		mode := map[string]int{"default": service.INSERT_MODE_DEFAULT, "sync": service.INSERT_MODE_SYNC, "async": service.INSERT_MODE_ASYNC}[op.Mode]
 		var p *promise.Promise[uint32]
-		func() {
+		type reqRet struct {
+			p       *promise.Promise[uint32]
+			crashed bool
+		}
+		retCh := make(chan reqRet, 1)
+		go func() {
+			var ret reqRet
 			defer func() {
 				if e := recover(); e != nil {
-					crashed = true
+					ret.crashed = true
 				}
+				retCh <- ret
 			}()
-			p = ms.Request(r.payload, mode)
+			ret.p = ms.Request(r.payload, mode)
 		}()
+		ret, returned := c0102Recv(retCh, stepTimeout)
+		if !returned {
+			res.err = fmt.Errorf("Request (request %d) did not return within %s", r.id, stepTimeout)
+			res.timedOut = true
+			return
+		}
+		p = ret.p
+		if ret.crashed {
+			crashed = true
+		}
 		after := snapshot()
 		chosen := -1
 		for i := range subs {
@@ -876,6 +961,7 @@ func runScenario(sc *scenario) (res *scenResult) {
 				}
 			}
 			res.reqSub[r.id] = chosen
+			res.growOf[r.id] = full[chosen]
 		} else if crashed {
 			// a panic before any visible change: attribute it to the only candidate, or give up the tie
 			if len(cands) != 1 {
@@ -898,9 +984,11 @@ func runScenario(sc *scenario) (res *scenResult) {
 			return
 		}
 		// not queued: the promise must be complete already
-		ctx, cancel := context.WithTimeout(context.Background(), 2*time.Second)
-		_, err := p.GetCtx(ctx)
-		cancel()
+		// (a promise that Request neither queued nor completed is reported as a hang by the oracle, not waited for)
+		answered, err := c0102Await(p, stepTimeout/2)
+		if !answered {
+			err = promise.GetContextTimeout
+		}
 		if chosen < 0 {
 			// nothing changed anywhere: the sub-service that answered is one that answers like this without
 			// touching its state — a stopped one for "service stopped", one with nil columns for a type
@@ -958,9 +1046,11 @@ func runScenario(sc *scenario) (res *scenResult) {
 			iterate(i, op.Ok)
 		case "dores":
 			doResult(i, op.Ok)
+		case "begin":
+			begin(i)
 		case "ping":
 			// the watchdog branch of Run. Run is sequential: not while it is inside Do, not after it returned.
-			if inDo[i] != nil {
+			if inDo[i] != nil || inBefore[i] != nil {
 				continue
 			}
 			ops = append(ops, fmt.Sprintf("p:%d:%s", i, b01(op.Ok)))
@@ -984,7 +1074,7 @@ func runScenario(sc *scenario) (res *scenResult) {
 			}
 		case "stop":
 			st := subs[i].VerifState()
-			if inDo[i] != nil || st.FlushDue || !st.Running {
+			if inDo[i] != nil || inBefore[i] != nil || st.FlushDue || !st.Running {
 				continue // Run's select could as well take the insert branch: keep the run deterministic
 			}
 			subs[i].Stop()
@@ -996,12 +1086,39 @@ func runScenario(sc *scenario) (res *scenResult) {
 				res.stats["stop"]++
 				stopped[i] = true
 			case <-time.After(stepTimeout):
-				res.err = fmt.Errorf("Run did not return after Stop")
+				res.err = fmt.Errorf("Run did not return within %s after Stop", stepTimeout)
+				res.timedOut = true
 			}
 		}
 		if !crashed {
 			poll()
 		}
+	}
+	for i := range subs {
+		if inBefore[i] != nil && !crashed && res.err == nil {
+			begin(i) // the state line below is compared with the model: let the flusher reach client.Do
+		}
+	}
+	if sc.Final && !crashed && res.err == nil && len(open) > 0 {
+		// bounded wait: every flush iteration completes its promises before it returns, so nothing is pending; a promise
+		// still open after this grace (ONE budget for all of them) is reported by the oracles as never answered
+		grace := 200 * time.Millisecond
+		if sc.scale > 1 {
+			grace *= time.Duration(sc.scale)
+		}
+		budget := c0102NewBudget(grace)
+		curStep = len(all)
+		var still []outstanding
+		for _, o := range open {
+			if done, err := budget.await(o.p); done {
+				evs = append(evs, fmt.Sprintf("r:%d:%s", o.id, okStr(err == nil)))
+				res.events = append(res.events, sevent{Step: curStep, Kind: "resolved", ID: o.id, Ok: err == nil})
+				res.stats["late-completion"]++
+			} else {
+				still = append(still, o)
+			}
+		}
+		open = still
 	}
 	state := "crashed"
 	if !crashed {
@@ -1027,13 +1144,22 @@ func runScenario(sc *scenario) (res *scenResult) {
 		stillOpen[o.id] = true
 	}
 	for i := range subs {
+		if inBefore[i] != nil {
+			close(inBefore[i])
+			inBefore[i] = nil
+			if call, ok := c0102Recv(env.doCalls, stepTimeout); ok {
+				c := call
+				inDo[i] = &c
+			}
+		}
 		if inDo[i] != nil {
 			inDo[i].reply <- errScripted
-			<-iterDone[i]
+			c0102Recv(iterDone[i], stepTimeout) // bounded: an iteration that never returns must not block the run
 			inDo[i] = nil
 		}
 	}
 	res.implOut = strings.Join(evs, ";") + "#" + state
+	res.opsSoFar = ops
 	res.modelOps = fmt.Sprintf("c01run %s %d %d %s", sc.Kind, sc.MaxQueue, sc.SvcNum, strings.Join(ops, ";"))
 	if len(ops) == 0 {
 		res.modelOps = fmt.Sprintf("c01run %s %d %d", sc.Kind, sc.MaxQueue, sc.SvcNum)
